@@ -119,23 +119,24 @@ func covering() []*dg.Design {
 		Features: []string{"cover:same_status_pairs", "cover:error_content_type"}}
 	lat0 := latticeDesign("lattice0", latCombos(0), 0)
 	lat3 := latticeDesign("lattice3", latCombos(3), 100)
-	return []*dg.Design{d0, d1, d2, lat0, lat3}
-}
-
-// witnessDesigns hold the inputs that re-demonstrate the recorded findings.
-func witnessDesigns() []*dg.Design {
-	str, integer := dg.Prim("String"), dg.Prim("Int")
-	// one user type used by errors of two different methods, without an attribute
-	// carrying the error name
+	// one user type, without an ErrorName attribute, used by errors of two different methods:
+	// goa rejects the design (the validation of one method's errors extended to the service);
+	// if it were accepted again the second method's error would have to be dispatched
 	shared := &dg.UserType{Name: "Failure", Base: dg.Obj(dg.Req("why", str), dg.F("n", integer))}
 	ft := dg.Ref("Failure")
 	ma := &dg.Method{Name: "first", Errors: []dg.ErrorDef{{Name: "fail_a", T: &ft}},
 		HTTP: &dg.HTTPMap{Routes: []dg.Route{{Verb: "GET", Path: "/first"}}, Errors: []dg.ErrResponse{{Name: "fail_a", R: dg.Response{Status: 400}}}}}
 	mb := &dg.Method{Name: "second", Errors: []dg.ErrorDef{{Name: "fail_b", T: &ft}},
 		HTTP: &dg.HTTPMap{Routes: []dg.Route{{Verb: "GET", Path: "/second"}}, Errors: []dg.ErrResponse{{Name: "fail_b", R: dg.Response{Status: 409}}}}}
-	w0 := &dg.Design{Name: "witness0", Types: []*dg.UserType{shared},
+	d3 := &dg.Design{Name: "cover3_must_reject", Types: []*dg.UserType{shared},
 		Services: []*dg.Service{{Name: "gamma", Methods: []*dg.Method{ma, mb}}},
-		Features: []string{"witness:type_shared_across_methods"}}
+		Features: []string{"cover:type_shared_across_methods"}}
+	return []*dg.Design{d0, d1, d2, d3, lat0, lat3}
+}
+
+// witnessDesigns hold the inputs that re-demonstrate the recorded findings.
+func witnessDesigns() []*dg.Design {
+	str, integer := dg.Prim("String"), dg.Prim("Int")
 	// header-mapped attributes, an overridden body, an empty body
 	conflict := dg.Obj(dg.Req("name", str), dg.F("detail", str), dg.F("code", integer))
 	resw := dg.A(dg.Obj(dg.Req("message", str)))
@@ -159,5 +160,5 @@ func witnessDesigns() []*dg.Design {
 	// error with a custom type
 	w3 := latticeDesign("witness3", []latCombo{{A: latMap, M: latDecl, TM: "LatM"}, {S: latMap, M: latDecl, TM: "LatM"}}, 200)
 	w3.Features = []string{"witness:error_type_differs_between_levels"}
-	return []*dg.Design{w0, w1, w2, w3}
+	return []*dg.Design{w1, w2, w3}
 }
